@@ -935,6 +935,15 @@ fn build_client(case: &NetCase, routes: Arc<Vec<DuplexClient>>, dials: Arc<Atomi
             }
         }};
     }
+    if case.reqs.iter().any(|r| redirect_target(case, r).is_some()) && case.builder_order % 2 == 1 {
+        // settings first, the redirect policy (and everything else that rebuilds the builder) afterwards
+        let b = secured!(hyperdriver::Client::builder()).with_optional_timeout(timeout);
+        let b = match pool_cfg {
+            Some(cfg) => b.with_pool(cfg),
+            None => b.without_pool(),
+        };
+        return b.with_body::<ChunkBody, hyperdriver::Body>().with_transport(transport).with_auto_http().without_redirects().with_standard_redirect_policy().build_service();
+    }
     if case.reqs.iter().any(|r| redirect_target(case, r).is_some()) {
         // the default client follows redirects (tower-http's standard policy)
         let b = secured!(hyperdriver::Client::builder()
